@@ -143,7 +143,11 @@ def main() -> None:
         "notes": "Exit codes: 0 held / 1 VIOLATION / 2 ANALYSIS-ERROR (anchor lost, unknown syntax, floor). Known findings and "
                  "fixed defects: /verif/known_findings.txt. Thorough = quick + self-test (in memory: hand-written witnesses and the confirmed seeded "
                  "changes under /verif/seeded must be reported, the behaviour-preserving refactorings under /verif/refactors must stay silent) "
-                 "+ who-may-write scan over doc/stresstest/scripts.",
+                 "+ who-may-write scan over doc/stresstest/scripts. Open known findings on the unchanged tree (genuine defects whose repair is not a "
+                 "small safe patch; DESIGN 8.11): C05 unkeyed-teardown, C17 own-attestation-recorded, C20 dataclass-installed-early (2 constructs) and "
+                 "default-literal - the checks of C05, C17, C20 print one KNOWN-FINDING line per listed construct and exit 0; any other violation of the "
+                 "same rules is reported. Where a module evaluates repository code on sample values in its own AST interpreter (C02 boundary cases, "
+                 "C16 budget exit, C18 hash-mode pairing) the result is refute-only: a counter-example is a finding, agreement claims nothing.",
         "not_applicable": na,
     }
     with open(os.path.join(VERIF, "MANIFEST.json"), "w", encoding="utf-8") as fh:
